@@ -4,8 +4,10 @@ PROP = {
     "gen_modules": ["ChunkTables", "Consts"],
     "oracle_prefix": "C04",
     "streams": [{"name": "broker", "harness": "umh_broker", "driver": "broker",
-                 "timeout": {"quick": 900, "thorough": 9000}}],  # the shared thorough stream needs ~15 min unloaded, far more when
-                                                                 # several broker checks run concurrently
+                 "timeout": {"quick": 900, "thorough": 9000}},  # the shared thorough stream needs ~15 min unloaded, far more when
+                                                                # several broker checks run concurrently
+                # the same model against the broker's HTTP API (warp routes + JSON, the coordinator's HTTP clients): notes/http.md
+                {"name": "http", "harness": "umh_http", "driver": "broker"}],
     "search_s": 300,
     "assumptions": [
         "both modes of MetaStore are modelled (enable_ordered_proxy = false / true; a history of an ordered-mode broker starts with the pseudo-operation Op.setOrdered, see notes/ordered.md); about a quarter of the generated cases run MetaStore::new(true)",
@@ -36,7 +38,9 @@ CHECK = {
             "receiver that installs only strictly newer epochs and is offered the current view holds exactly the "
             "current view. Tie to the code: the model is replayed against the real MetaStore on every run and the "
             "two-state epoch oracle (incl. the ghost map of the largest epoch ever served per address) is evaluated on "
-            "the implementation's served views after every operation.",
+            "the implementation's served views after every operation. Stream 'http' repeats both one layer up, on the views, "
+            "GET /epoch and GET /metadata served by a real run_server(MemBrokerService) through the coordinator's HTTP clients "
+            "(incl. PUT /epoch/<n>, PUT /epoch/recovery, the composite auto-scale endpoint and the PUT /metadata guards).",
     "design_ref": "§6 C04",
     "note": "Trusted: Lean kernel; hand-written broker model (validated differentially each run); both proxy-allocation modes "
             "modelled; restore excluded here (C13). Observation (not a violation): the written cluster's epoch is not "
